@@ -451,6 +451,9 @@ class FakeSocket:
         if self.peer_closed or (self.session is not None and self.session.closed):
             if k == "timeout_delivered" or k in BASE_EXC_DELIVERED:
                 raise make_exc(k)
+            if isinstance(k, str) and k.endswith("_partial"):
+                self.partial_send_failed = True
+                raise make_exc(k)           # a fault recorded as fired is always delivered
             return None     # kernel accepts the bytes; the peer is gone
         if getattr(self, "partial_send_failed", False):
             # nobody can know how much of the previous buffer went out: writing on is writing into the middle of a command
